@@ -138,6 +138,13 @@ func (tdsChan *Channel) Reset() {
 		return
 	}
 
+	tdsChan.reset()
+}
+
+// reset is Reset for callers that already hold the read lock. Acquiring
+// the read lock a second time deadlocks once Close waits for the write
+// lock.
+func (tdsChan *Channel) reset() {
 	tdsChan.CurrentHeaderType = TDS_BUF_NORMAL
 	tdsChan.queueTx.Reset()
 	tdsChan.lastPkgTx = nil
@@ -501,7 +508,7 @@ func (tdsChan *Channel) SendRemainingPackets(ctx context.Context) error {
 
 	// SendRemainingPackets is only called when completing sending
 	// packets to the server and preparing to receive the answer.
-	defer tdsChan.Reset()
+	defer tdsChan.reset()
 	return tdsChan.sendPackets(ctx, false)
 }
 
